@@ -140,6 +140,10 @@ def run(ctx):
     suffix.rule_S_SUFFIX(ctx, T)
     # removing the space between a name and a copula must not change the token boundary
     tables.rule_T_JUXTAPOSE(ctx, T, models=("enum", "lex"), only_written=tables.emitted_copula_fields(ctx))
+    # parser state: any field beyond the reviewed ones is unmodelled state (seed c06-e: an atom cache keyed by the bare name; c09-f: a stale
+    # copula index surviving reset_to)
+    import c08 as _c08
+    _c08.rule_S_FIELDS(ctx)
     ctx.undecided = ["that removing ALL spaces never glues two tokens for every value (the copula look-ahead and identifier classes make "
                      "this value-dependent)", "the macro's whitespace stripping is an instance of `remove all spaces` and has no separate rule"]
     ctx.assumptions = ["the flag correlation modelled by the typestate (ok = match result {Ok=>true,Err=>false}) is the only one the parser's macros create"]
